@@ -368,7 +368,7 @@ def inject_canary(fn_text, tag):
     return fn_text[:j + 1] + inj + fn_text[j + 1:]
 
 
-def extract_slice(src, masked, fn_path, start_anchor, end_anchor, exact=False, end_last=False):
+def extract_slice(src, masked, fn_path, start_anchor, end_anchor, exact=False, end_last=False, stmts=1):
     s, e, _, _ = find_item(src, masked, fn_path)
     body = src[s:e]
     mb = masked[s:e]
@@ -386,7 +386,7 @@ def extract_slice(src, masked, fn_path, start_anchor, end_anchor, exact=False, e
             b = body.find("\n", a)
             b = len(body) if b < 0 else b
         elif end_anchor == "$STMT":
-            k, pd = a, 0
+            k, pd, left = a, 0, max(1, int(stmts))
             while k < len(mb):
                 ch = mb[k]
                 if ch in "([{":
@@ -394,7 +394,9 @@ def extract_slice(src, masked, fn_path, start_anchor, end_anchor, exact=False, e
                 elif ch in ")]}":
                     pd -= 1
                 elif ch == ";" and pd == 0:
-                    break
+                    left -= 1
+                    if left == 0:
+                        break
                 k += 1
             if k >= len(mb):
                 raise ExtractError(f"slice `{start_anchor}` in `{fn_path}`: no statement end found")
